@@ -50,6 +50,7 @@ type c02Case struct {
 	Twin    string `json:"twin,omitempty"`          // "", "before", "after": a same-shape route with other variable names under POST
 	Head    bool   `json:"head_requests,omitempty"` // the history is requested with HEAD (served by the GET route)
 	Redisp  bool   `json:"redispatch,omitempty"`    // the route's handler re-dispatches (HandleContext) to a static and to another dynamic route
+	Dump    bool   `json:"dump_routes,omitempty"`   // the router's read-only inspection API (String, Routes, IterateRoutes, NamedRoutes) is called between registration and the requests and again between them
 }
 
 var c02VarName = regexp.MustCompile(`\{([a-z]+)`)
@@ -160,6 +161,12 @@ func c02Gen(tier string, emit func(c02Case)) {
 				emit(c02Case{Pattern: pat, Cache: cc, First: paths[i], Head: true})
 			}
 		}
+		// the read-only inspection API of the router is used before and between the requests
+		for _, cc := range []int{0, 2} {
+			for i := 0; i < len(paths); i += stride * 4 {
+				emit(c02Case{Pattern: pat, Cache: cc, First: paths[i], Dump: true})
+			}
+		}
 		// StrictLastSlash: '/x' and '/x/' are different request paths (and different cache keys)
 		s2 := stride * 3
 		if tier == "thorough" {
@@ -222,7 +229,7 @@ func c02Run(c c02Case, st *fw.Stats) []fw.Viol {
 		paths = c02Paths(c.Pattern)
 	}
 	where := func(seq []string, i int) string {
-		return fmt.Sprintf("routes [%s], cache=%d, strict=%v, head=%v, request #%d of history %q", defsString(defs), c.Cache, c.Strict, c.Head, i+1, seq)
+		return fmt.Sprintf("routes [%s], cache=%d, strict=%v, head=%v, routes-dumped=%v, request #%d of history %q", defsString(defs), c.Cache, c.Strict, c.Head, c.Dump, i+1, seq)
 	}
 	for _, q := range paths {
 		rec := &hitRec{}
@@ -233,6 +240,9 @@ func c02Run(c c02Case, st *fw.Stats) []fw.Viol {
 		}
 		seq := []string{c.First, q, c.First, q}
 		for i, p := range seq {
+			if c.Dump && i%2 == 0 {
+				c02Inspect(r)
+			}
 			st.Evals++
 			np := refmodel.Norm(p, c.Strict)
 			want := pt.Matches(np)
@@ -281,6 +291,20 @@ func c02Run(c c02Case, st *fw.Stats) []fw.Viol {
 		st.Sample(map[string]any{"pattern": c.Pattern, "cache": c.Cache, "history_shape": "first,q,first,q for every q", "first": c.First, "some_q": paths[:min(6, len(paths))]})
 	}
 	return viols
+}
+
+// c02Inspect uses every read-only inspection entry point of the router
+func c02Inspect(r *rux.Router) {
+	_ = r.String()
+	_ = r.Routes()
+	r.IterateRoutes(func(rt *rux.Route) {
+		_ = rt.String()
+		_ = rt.Info()
+		_ = rt.MethodString(",")
+		_ = rt.Path()
+		_ = rt.Name()
+	})
+	_ = r.NamedRoutes()
 }
 
 // the handler of the pattern's route re-dispatches the request with HandleContext: the target's handlers must see
